@@ -24,7 +24,7 @@ MANIFEST = {
     "technique": "bounded-exhaustive metamorphic enumeration: every input executed before and after each transformation",
 }
 MANIFEST["text"] += " " + (
-    'Added after the seeding waves: integer labels rotated so that the falsy label 0 lands on interior nodes, a string relabelling that uses the empty string for one node; configurations whose initial radius is attained exactly along one axis by GRID nodes (a start node on a side of the search box).')
+    'Added after the seeding waves: integer labels rotated so that the falsy label 0 lands on interior nodes, a string relabelling that uses the empty string for one node; configurations whose initial radius is attained exactly along one axis by GRID nodes (a start node on a side of the search box); relabellings to large integers and tuples (equal labels that are distinct objects); configurations that continue an early-stopped match with continue_with_distance() and match(expand=True) (index and probability compared).')
 BUDGET = {"quick": 420, "thorough": 3000}
 RULE = ("states = (input, configuration, transformation) executions, transitions = matcher runs, traces validated = transformed "
         "results compared with the base result; non-trivial = the base match is non-empty; outcomes = base canonical results.")
@@ -35,6 +35,7 @@ SCALED = ("obs_noise", "obs_noise_ne", "dist_noise", "dist_noise_ne", "max_dist"
 CFGS = [dict(fam=f, ne=ne, avoid=True, width=None, obs_noise=1.0) for f in ms.FAMS for ne in (False, True)] + \
        [dict(fam=f, ne=ne, avoid=True, width=2, obs_noise=1.0, max_dist=1.5, min_prob_norm=0.3) for f in ms.FAMS for ne in (False, True)] + \
        [dict(fam=f, ne=ne, avoid=True, width=None, obs_noise=1.0, max_dist=3.0, max_dist_init=2.0) for f, ne in (("S", False), ("D", True), ("SN", True))]
+CFGS += [dict(fam=f, ne=ne, avoid=True, width=None, obs_noise=1.0, max_dist=1.5, jump=True) for f, ne in (("S", False), ("D", True))]
 # (the last group: an initial radius that GRID nodes attain EXACTLY along one axis - a start node on a side of the search box -
 #  so that an asymmetric treatment of the four sides shows under the axis swap)
 
@@ -48,6 +49,9 @@ def transforms(pos, width, extreme):
     T.append(("relabel-rotate+2", {"rot": 2}))
     T.append(("relabel-rotate+1", {"rot": 1}))
     T.append(("relabel-str-with-empty", {"labels": "strempty"}))
+    # labels whose equal values are distinct objects (large integers, tuples): identity must never stand in for equality
+    T.append(("relabel-bigint", {"labels": "bigint"}))
+    T.append(("relabel-tuple", {"labels": "tuple"}))
     T.append(("relist-reversed", {"relist": True}))
     T.append(("axis-swap", {"swap": True}))
     for k in (-8, -3, 3, 10, 20):
@@ -97,9 +101,14 @@ def apply_tf(graph, trace, cfg, tf):
 
 
 def run_one(graph, trace, cfg):
-    m = ms.make_matcher(maps.inmem(graph), cfg)
+    m = ms.make_matcher(maps.inmem(graph), {k: v for k, v in cfg.items() if k != "jump"})
     try:
         r = m.match(list(trace))
+        if cfg.get("jump") and isinstance(r, tuple) and r[1] < len(trace) - 1:
+            # the match stopped early: jump over the gap and continue (labels of jump candidates come from the spatial
+            # query, not from a neighbour list)
+            m.continue_with_distance()
+            r = m.match(list(trace), expand=True)
         return m, ms.canon(m, r)
     except Exception as exc:  # noqa
         return m, ("EXC", repr(exc), None, ())
@@ -163,7 +172,9 @@ def run_case(case):
                             return tuple(ren(x) if i < len(key) - 2 else x for i, x in enumerate(key))
                         bk = [rk(k) for k, _ in base[3]]
                         gk = [k for k, _ in got[3]]
-                        if bk != gk:
+                        if bk != gk and c.get("jump"):
+                            pass        # jump histories: index and probability only (known finding D22 makes path replays unreliable there)
+                        elif bk != gk:
                             viols, _ = replay(m2, t2, ms.kind_of(c2), tol=tol)
                             if any(t == "score" for t, _ in viols):
                                 msg = f"path changes from {bk} to {gk} and the new path is not an equally probable alternative"
